@@ -91,6 +91,23 @@ class Poly:
         """Per additive term, the total power of atoms for which pred(atom) holds."""
         return [sum(p for a, p in k if pred(a)) for k in self.t]
 
+    def subs(self, atom: str, value) -> "Poly":
+        """substitute a rational constant for an atom"""
+        out = Poly()
+        from fractions import Fraction as F
+        acc = {}
+        for k, v in self.t.items():
+            coef = F(v)
+            rest = []
+            for a_, p_ in k:
+                if a_ == atom:
+                    coef *= F(value) ** p_
+                else:
+                    rest.append((a_, p_))
+            key = tuple(rest)
+            acc[key] = acc.get(key, 0) + coef
+        return Poly(acc)
+
     def const_value(self):
         if not self.t:
             return Fraction(0)
